@@ -7,6 +7,7 @@ import numpy as np
 from ..gen import pauliops as G
 from ..ref import linalg as L
 from ..ref import paulidense as D
+from ..ref import pauliwide as PW
 
 ID = "C09"
 LEVEL = "exploration"
@@ -33,7 +34,11 @@ RULE = (
     "repeated, coefficients 1e-11..1e-9 and 1e6..1e12 (sparse matrix and direct expectation only), csr / coo / "
     "LinearOperator operands and strided states for expectation; matrices for the expansion also as tuples, lists "
     "of row arrays, Fortran-ordered and strided arrays. non-trivial = the operator/matrix has a Y component or a gap between acted-on "
-    "qubits, or the register is wider than the operator; distinct = distinct canonical case strings"
+    "qubits, or the register is wider than the operator; class wide: registers of 8 - 12 (13 thorough) qubits, 1 - 3 "
+    "terms whose qubits straddle position 8, built from dictionaries and strings in every factor order; the sparse "
+    "matrix is judged by its action on 3 random and 2 basis probe vectors against a matrix-free reference "
+    "(rv.ref.pauliwide), the expectation value against psi^dagger (M psi) computed the same way; "
+    "distinct = distinct canonical case strings"
 )
 ASSUMPTIONS = [
     "oracle = dense matrices filled by bit arithmetic from the definition (qubit 0 leftmost tensor factor), plain numpy quadratic forms",
@@ -53,11 +58,13 @@ BRANCHES = ["get_sparse_operator:gap-identity", "get_sparse_operator:trailing-id
 BUDGET = {"quick": (4, 20, 1800), "thorough": (16, 150, 100000)}
 
 MAXN = 7
+WIDE_MAXN = 13  # beyond MAXN the sparse matrix is judged by its action on probe vectors (rv.ref.pauliwide)
+_PROBE_RNG = np.random.default_rng(20260930)
 _LIB = None
 
 
 def classes(tier):
-    return ["sparse", "hermitian", "from_matrix", "reverse", "expectation", "history", "mutation", "spelling"]
+    return ["sparse", "hermitian", "from_matrix", "reverse", "expectation", "history", "mutation", "spelling", "wide"]
 
 
 # ----------------------------------------------------------------------------- oracle helpers
@@ -147,12 +154,30 @@ def _post_sparse(mon, call):
             mon.note("sparse:too-few-qubits-rejected")
         mon.out_of_domain(hook)
         return
-    if n > MAXN:
+    if n > WIDE_MAXN:
         mon.out_of_domain(hook)
         return
     if call.exc is not None:
         kind = "sparse-operator-raises" + ("-on-empty-sum" if not tl else "")
         mon.violation(kind, f"get_sparse_operator({op!r}, {n}) raised {call.exc!r}")
+        return
+    if n > MAXN:
+        # wide register: the matrix is judged by its action on probe vectors, never densified
+        R = call.result
+        if getattr(R, "shape", None) != (2**n, 2**n) or not hasattr(R, "dot"):
+            mon.violation("sparse-operator-shape", f"get_sparse_operator({op!r}, {n}) returned {call.result!r}"[:400])
+            return
+        scale = max(1.0, D.abs_sum(tl))
+        worst = 0.0
+        for v in PW.probes(_PROBE_RNG, n):
+            got_v = np.asarray(R.dot(v)).reshape(-1)
+            worst = max(worst, _maxabs(got_v - PW.apply(tl, n, v)) / max(1.0, float(np.abs(v).max())))
+        mon.note("sparse:wide-register")
+        if not worst <= 1e-10 * scale:
+            mon.violation("sparse-operator-wrong-matrix",
+                          f"get_sparse_operator({op!r}, {n}): |M v - (tensor-product definition) v| = {worst:.3e} on a probe vector")
+        else:
+            mon.ok(hook)
         return
     got = _to_dense(call.result)
     if got is None or got.shape != (2**n, 2**n):
@@ -410,7 +435,7 @@ def _post_gev(mon, call):
         mon.out_of_domain(hook)
         return
     n = psi.shape[0].bit_length() - 1
-    if _width(tl) > n or n > MAXN:
+    if _width(tl) > n or n > WIDE_MAXN:
         mon.out_of_domain(hook)
         return
     if call.exc is not None:
@@ -421,7 +446,7 @@ def _post_gev(mon, call):
         return
     if rev:
         tl = [(sorted((n - 1 - q, o) for q, o in ops), c) for ops, c in tl]
-    exp = complex(np.vdot(psi, D.dense(tl, n) @ psi))
+    exp = complex(np.vdot(psi, D.dense(tl, n) @ psi)) if n <= MAXN else complex(np.vdot(psi, PW.apply(tl, n, psi)))
     try:
         got = complex(call.result)
     except Exception:
@@ -741,6 +766,51 @@ def run_case(ctx):
         except ValueError:
             if not empty:
                 raise  # the hook has recorded the empty-sum failure; anything else is unexpected here too
+        return
+
+    if cls == "wide":
+        # registers of 8 - 12 qubits (13 thorough): few terms whose qubits straddle position 8 (a byte of basis-index
+        # bits, the size from which small-integer sets stop iterating in ascending order), built from dictionaries and
+        # strings in every factor order; the sparse matrix and the expectation value are judged matrix-free
+        n = rng.choice([8, 9, 9, 10, 10, 11, 12] if ctx.quick else [8, 9, 10, 11, 12, 13])
+        nterms = rng.choice([1, 1, 2, 3])
+        specs = []
+        for _ in range(nterms):
+            k = rng.choice([1, 2, 2, 3, 4])
+            low = [q for q in range(min(8, n))]
+            high = [q for q in range(8, n)]
+            qs = set(rng.sample(range(n), min(k, n)))
+            if high and rng.random() < 0.7:
+                qs.add(rng.choice(high))
+                qs.add(rng.choice(low))
+            order = list(qs)
+            rng.shuffle(order)
+            ops = [(q, rng.choice("XYZ")) for q in order]
+            c = G.coeff(rng, regime)
+            specs.append((ops, c))
+        def mk(ops, c):
+            route = rng.choice(["dict", "string", "string-sorted"])
+            if route == "dict":
+                return T({q: o for q, o in ops}, c)
+            seq = sorted(ops) if route == "string-sorted" else ops
+            return T("*".join(f"{o}{q}" for q, o in seq), c)
+        terms = [mk(ops, c) for ops, c in specs]
+        op = terms[0] if len(terms) == 1 and rng.random() < 0.5 else S(terms)
+        w = max(q for ops, _ in specs for q, _o in ops) + 1
+        nn = rng.choice([n, n, w, None]) if w <= n else n
+        ctx.describe(f"wide n={nn} " + " + ".join(f"({c})*" + "*".join(f"{o}{q}" for q, o in ops) for ops, c in specs), True)
+        ctx.mon.note(f"wide:register-{nn if nn is not None else w}")
+        if nn is None:
+            get_sparse_operator(op)
+        else:
+            get_sparse_operator(op, nn)
+        if rng.random() < 0.6:
+            reg = nn if nn is not None else w
+            psi = nprng.normal(size=2**reg) + 1j * nprng.normal(size=2**reg)
+            psi /= np.linalg.norm(psi)
+            get_expectation_value(op, Wavefunction(psi))
+        if rng.random() < 0.3:
+            reverse_qubit_order(op, nn if nn is not None else w)
         return
 
     if cls == "hermitian":
